@@ -17,6 +17,7 @@ import (
 
 	"github.com/robfig/soy/soyhtml"
 
+	"verif/c02"
 	"verif/core"
 )
 
@@ -48,6 +49,14 @@ func Run(ctx *core.Ctx) {
 		cases = append(cases, &bcase{Family: "valid", Kind: "none", Prog: p})
 		for _, m := range Mutants(p, r, perKind) {
 			cases = append(cases, m)
+		}
+	}
+	// the interaction families of SoyExecFamilies.tla (valid and invalid members)
+	if fam, err := c02.EnumerateFamilies(ctx, ""); err != nil {
+		ctx.ToolError("%v", err)
+	} else {
+		for _, f := range fam {
+			cases = append(cases, &bcase{Family: "family", Kind: "family:" + f.Key(), Prog: f.Prog})
 		}
 	}
 	compileAll(cases)
